@@ -135,6 +135,26 @@ pub fn build(id: &str, tier: Tier) -> Option<Check> {
             assumptions: envelope(),
             essential: vec!["c09_exit_probes", "c09_exit_completed", "c09_stub_mode_products"],
         },
+        "C10" => Check {
+            id: "C10",
+            jobs: crate::auth::OWNED
+                .iter()
+                .map(|k| bfs(crate::auth::Auth { contract: k, seeds: if q { vec!["fresh", "funded"] } else { vec!["fresh", "funded", "evolved"] } }, tier.pick(3, 5), secs / 4.0))
+                .collect(),
+            rule: "for each owned contract (hub, dispatcher, reward, registry) a BFS over its two-step ownership machine (SetOwner(x) for x in {nominee, stranger, old owner} and AcceptOwnership, each by owner / nominee / stranger; fresh, nominated, completed, abandoned, re-nominated and handed-back states) from fresh and evolved business states; in every distinct state the full matrix of 44 privileged message shapes of all six contracts x 16 sender classes (owner, nominee, ex-owner, each sibling contract, swap, oracle, airdrop registry, keeper, updater, users, the contract itself) is executed on clones: a sender outside the designated principals must be rejected without any state change, a designated principal must never be rejected with an authorisation error; non-trivial = matrix cells executed".into(),
+            assumptions: vec!["the authorisation table is written from the property text (owner-only, nominee-only, dispatcher / registry / hub / token / airdrop-registry-only messages)".into(), "rejected transactions are rolled back by the chain (DESIGN.md 3.1)".into()],
+            essential: vec!["c10_ownership_steps", "c10_authorised_cells", "c10_unauthorised_cells", "c10_authorised_cells_succeeded"],
+        },
+        "C11" => Check {
+            id: "C11",
+            jobs: vec![
+                bfs(hub("c11-pause-probes", |h| { h.arm.c11 = true; h.with_rewards = true; h.with_registry = true; h.budget = 1; h.seeds = if q { vec!["funded", "inflight"] } else { vec!["funded", "inflight", "slashed_unseen", "rewarded"] }; }), tier.pick(3, 4), secs),
+                bfs(crate::pause::Legacy { entries: vec![0, 1, 3] }, tier.pick(5, 8), secs),
+            ],
+            rule: "in every distinct state of a hub exploration (bond, unbond, convert, withdraw, index update, accrual, registry, time, slashing; depth 2 quick / 3 thorough) the owner pauses a clone; then (a) every hub query must answer as before, (b) the full matrix of 14 hub message shapes x 11 sender classes must fail without any change, as must every path entering the hub through a token Send hook, the registry or a burn, (c) UpdateParams by non-owners is refused and the wait-list migration is a no-op, (d) unpausing either way restores the pre-pause state byte for byte (pause-flag representation aside) and (e) every action of the alphabet gives the identical result and successor in the original and in the cycled world (lock-step product); a second scenario seeds 0/1/3 legacy wait-list entries (as the repository's test_pause does) and explores unpause/migrate/pause sequences to a fixpoint; non-trivial = states probed".into(),
+            assumptions: envelope(),
+            essential: vec!["c11_states_probed", "c11_paused_matrix_cells", "c11_paused_entering_paths", "c11_cycles_compared", "c11_product_steps", "c11_legacy_unpause_attempts", "c11_legacy_migrations"],
+        },
         "C12" => Check {
             id: "C12",
             jobs: vec![Box::new(C12Enum { max_len: tier.pick(4, 5), max_val: tier.pick(5, 7) })],
